@@ -345,6 +345,10 @@ fn script_has_closure(c: &Case) -> bool {
     c.cfg.scripts.iter().any(|s| s.pre.iter().chain(s.drain.iter()).chain(s.post.iter()).any(|o| matches!(o, Op::ForEach { .. } | Op::EnumForEach { .. } | Op::Fold { .. })))
 }
 
+fn only_case(o: &(u64, u64)) -> u64 {
+    o.0
+}
+
 fn cmd_run(a: &Args) -> i32 {
     let ra = run_args(a);
     if ra.mode == Mode::Sched && !sched::HOOKS_AVAILABLE {
@@ -366,7 +370,11 @@ fn cmd_run(a: &Args) -> i32 {
     });
     let t0 = std::time::Instant::now();
     let mut agg = Agg::default();
-    let mut e = shard;
+    // a replayed case (--only) is executed whatever --execs / --shard say
+    let (mut e, execs) = match only {
+        Some(o) => (only_case(&o), only_case(&o) + 1),
+        None => (shard, execs),
+    };
     while e < execs {
         if let Some((oe, _)) = only {
             if e != oe {
